@@ -15,6 +15,7 @@ struct Ctl {
     turn: Option<usize>,
     parked: Vec<bool>,
     done: Vec<bool>,
+    panics: Vec<String>,
 }
 
 static CTL: Mutex<Option<Arc<(Mutex<Ctl>, Condvar)>>> = Mutex::new(None);
@@ -51,7 +52,7 @@ pub fn main(args: &[String]) {
     let sc: Value = serde_json::from_str(&text).expect("scenario json");
     let programs = sc["programs"].as_array().unwrap().clone();
     let n = programs.len();
-    let ctl = Arc::new((Mutex::new(Ctl { turn: None, parked: vec![false; n], done: vec![false; n] }), Condvar::new()));
+    let ctl = Arc::new((Mutex::new(Ctl { turn: None, parked: vec![false; n], done: vec![false; n], panics: vec![] }), Condvar::new()));
     *CTL.lock().unwrap() = Some(ctl.clone());
     // handles of each thread, shared with the controller for the final inspection
     let handles: Vec<Arc<Mutex<Vec<(String, SharedString)>>>> = (0..n).map(|_| Arc::new(Mutex::new(vec![]))).collect();
@@ -66,6 +67,7 @@ pub fn main(args: &[String]) {
         let ctl2 = ctl.clone();
         joins.push(std::thread::spawn(move || {
             TID.with(|t| t.set(Some(tid)));
+            let body = std::panic::catch_unwind(std::panic::AssertUnwindSafe(|| {
             for op in prog.as_array().unwrap() {
                 park();
                 match op[0].as_str().unwrap() {
@@ -90,8 +92,13 @@ pub fn main(args: &[String]) {
                     other => panic!("unknown op {}", other),
                 }
             }
+            }));
             let (m, cv) = &*ctl2;
             let mut g = m.lock().unwrap();
+            if let Err(e) = body {
+                let msg = e.downcast_ref::<String>().cloned().or_else(|| e.downcast_ref::<&str>().map(|s| s.to_string())).unwrap_or_default();
+                g.panics.push(format!("thread {}: {}", tid, msg));
+            }
             g.done[tid] = true;
             g.turn = None;
             cv.notify_all();
@@ -111,6 +118,9 @@ pub fn main(args: &[String]) {
         let (m, cv) = &*ctl;
         let mut g = m.lock().unwrap();
         if g.done[tid] {
+            if !g.panics.is_empty() {
+                break;
+            }
             println!("{}", json!({"error": format!("grant {} to finished thread {}", granted, tid)}));
             std::process::exit(2);
         }
@@ -127,6 +137,11 @@ pub fn main(args: &[String]) {
         for (s, h) in hs.lock().unwrap().iter() {
             live.push(json!({"thread": tid, "content": s, "ptr": h.data().as_ptr() as usize, "data_ok": h.data() == s.as_bytes()}));
         }
+    }
+    let panics = { let (m, _) = &*ctl; m.lock().unwrap().panics.clone() };
+    if !panics.is_empty() {
+        println!("{}", json!({"live": live, "panics": panics}));
+        std::process::exit(0);
     }
     let table_now = rbx_types::verif_hooks::cache_len();
     let all_done = { let (m, _) = &*ctl; let g = m.lock().unwrap(); (0..n).all(|i| g.done[i]) };
